@@ -36,7 +36,12 @@ func (d *deadlineRT) RoundTrip(req *http.Request) (*http.Response, error) {
 	return &http.Response{StatusCode: 200, Status: "200 OK", Header: http.Header{"Content-Type": []string{"text/plain"}}, Body: io.NopCloser(strings.NewReader("ok")), Request: req}, nil
 }
 
-func checkDeadline(dc DeadlineCase) (string, string) {
+func checkDeadline(dc DeadlineCase) (cl, what string) {
+	defer func() {
+		if e := recover(); e != nil {
+			cl, what = "panic", fmt.Sprintf("Submit panics in the deadline sweep: %v", e)
+		}
+	}()
 	if dc.DefaultMS > 0 {
 		// the documented way to change the timeout of calls that do not set their own (sequential part of main)
 		old := client.DefaultTimeout
